@@ -298,4 +298,50 @@ theorem fitsSegs_or_reject (k : Kind) (buf : Bytes) : (FitsSegs k buf ∧ ¬ Seg
     rw [hd] at this
     cases this
 
+/-! ### what an accepted segment holds -/
+
+/-- the typed parts keep `payload` -/
+theorem typed_payload (s : Seg) :
+    s.unpackACQ.1.payload = s.payload ∧ s.unpackRS232.1.payload = s.payload ∧ s.unpack1553.1.payload = s.payload := by
+  refine ⟨?_, ?_, ?_⟩
+  · simp only [Seg.unpackACQ]
+    repeat' split
+    all_goals rfl
+  · simp only [Seg.unpackRS232]
+    repeat' split
+    all_goals rfl
+  · simp only [Seg.unpack1553]
+    repeat' split
+    all_goals rfl
+
+/-- an accepted segment of any class holds exactly the bytes `rem[8 : declared]` (clamped at the end of `rem`) -/
+theorem Seg_unpack_payload (k : Kind) (rem : Bytes) (g : Seg) (r : Bytes)
+    (h : Seg.unpack (Seg.fresh k) rem = (g, .ok r)) : g.payload = segPayload rem := by
+  have h8 := (Seg_unpack_segmentlen k rem g r h).2
+  have hb := unpackBase_closed (Seg.fresh k) rem h8
+  have ht := typed_payload (baseDecoded (Seg.fresh k) rem)
+  have hsl : (baseDecoded (Seg.fresh k) rem).payload = segPayload rem := rfl
+  simp only [Seg.unpack, hb] at h
+  have hk : (Seg.fresh k).kind = k := rfl
+  rw [hk] at h
+  cases k <;> simp only at h
+  · cases h; rfl
+  · split at h
+    · rename_i s2 hs
+      cases h
+      have := ht.1; rw [hs] at this; exact this.trans hsl
+    · cases h
+  · cases h; rfl
+  · cases h; rfl
+  · split at h
+    · rename_i s2 hs
+      cases h
+      have := ht.2.1; rw [hs] at this; exact this.trans hsl
+    · cases h
+  · split at h
+    · rename_i s2 hs
+      cases h
+      have := ht.2.2; rw [hs] at this; exact this.trans hsl
+    · cases h
+
 end Acra.Lemmas.NPD
